@@ -18,5 +18,5 @@ CHECKS["C12"] = dict(
                 "each member published. Sampled, not exhaustive; no absence claim."),
     level_note="Trusted: the harness transport (synchronous call chain, loss of sync/ack/ack2), rapid, the Go toolchain. Production timers and random peer selection are outside the check.",
     tests=[dict(name="TestC12", quick=dict(cases=20000, shards=2), thorough=dict(cases=150000, shards=16, timeout=1500)),
-           dict(name="TestC12Cluster", quick=dict(cases=150, shards=3), thorough=dict(cases=1200, shards=16, timeout=1500))],
+           dict(name="TestC12Cluster", quick=dict(cases=500, shards=6, gomaxprocs=[1, 2, 4, 16, 2, 4]), thorough=dict(cases=1200, shards=16, timeout=1500))],
 )
